@@ -159,6 +159,9 @@ def gen(rng, tier):
                 files = {}
                 for k in range(rng.choice([1, 1, 2])):
                     files["src/U%d.java" % k] = unit(rng)
+                if rng.random() < 0.1:
+                    # the smallest compilation units next to the others: an empty file, blanks, a lone `;`, a lone comment
+                    files["src/Tiny%d.java" % i] = rng.choice(["", "\n", " ", ";", "//", "/**/", "\ufeff".encode("utf-8").decode("utf-8") + "class B { }"])
                 sh.append({"op": "passes", "files": files, "src": "grammar"})
                 if rng.random() < (0.12 if tier == "quick" else 0.03):
                     sh[-1]["cli"] = True        # also through the commands themselves (coca analysis | bs | api | todo | refactor), fresh processes
@@ -215,7 +218,7 @@ def nontrivial(case, mo):
     return True
 
 
-RULE = "16 x 30 (quick) / 32 x 1500 (thorough) trees of 1-2 files: 80% random sentences of languages/java/JavaParser.g4 (read from /repo on every run) (half of them with block / line comments of every small shape between tokens) + controller-shaped units + repository fixtures under layout / comment rewrites; only files the tool's own parser accepts without syntax error count"
+RULE = "16 x 30 (quick) / 32 x 1500 (thorough) trees of 1-2 files: 80% random sentences of languages/java/JavaParser.g4 (read from /repo on every run) (half of them with block / line comments of every small shape between tokens) + the smallest units (empty file, blanks, `;`, a lone comment) + controller-shaped units + repository fixtures under layout / comment rewrites; only files the tool's own parser accepts without syntax error count"
 ASSUMPTIONS = []
 TRUSTED = ["ANTLR runtime"]
 WITNESSES = {}
